@@ -47,3 +47,55 @@ def refpat_for(f, u):
     n += f.rewrite(r'\bfor \(([a-z_][a-z0-9_]*), &([a-z_][a-z0-9_]*)\) in ([^{]*?)\{', r'for (\1, \2__r) in \3{ let \2 = *\2__r;')
     u.count('R-refpat', n)
     return n
+
+
+def emit_struct(u, rel, name, kind='struct', drop_derive=None, keep_derive=False, tags=None):
+    """A struct/enum definition verbatim.  R-derive: `#[derive(...)]` lines are dropped unless
+    keep_derive; R-attr: doc comments dropped; R-vis: pub -> pub(crate) on the item itself."""
+    text, origin = u.get_item_text(rel, r'(?m)^(?:pub(?:\([a-z]+\))? )?%s %s\b' % (kind, name), '%s %s' % (kind, name))
+    if not keep_derive:
+        text, n = re.subn(r'(?m)^#\[derive\([^\]]*\)\]\n', '', text)
+        u.count('R-derive', n)
+    text, n = re.subn(r'(?m)^\s*//[/!][^\n]*\n', '', text)
+    u.count('R-attr', n)
+    # R-vis: the item and every field become `pub` (a single-file crate has no outside; Verus
+    # otherwise treats the datatype as opaque in open spec functions)
+    text, n = re.subn(r'(?m)^(?:pub(?:\([a-z]+\))? )?(struct|enum) ', r'pub \1 ', text)
+    if kind == 'struct':
+        text, n2 = re.subn(r'(?m)^(\s+)(?:pub(?:\([a-z]+\))? )?([a-z_][a-z0-9_]*: )', r'\1pub \2', text)
+        n += n2
+    u.count('R-vis', n)
+    key = '%s::%s' % (rel.split('/')[-1][:-3], name)
+    u.emit_text(key, text, origin, tags=tags)
+    return key
+
+
+def impl_header(u, rel, impl_rx, fn_name):
+    """Text of the impl header (up to and including '{') of the impl block holding fn_name."""
+    s = u.src(rel)
+    (a, o, e), _ = u.fn_in_impls(s, impl_rx, fn_name)
+    hdr = s.text[a:o + 1]
+    hdr = re.sub(r'(?m)^\s*//[/!][^\n]*\n', '', hdr)
+    hdr = re.sub(r'(?m)^#\[[^\]]*\]\n', '', hdr)
+    # associated types of a trait impl travel with the header
+    from vx.rs import find_depth0
+    assoc = [s.text[m.start():s.text.index(';', m.start()) + 1] for m in find_depth0(s.mask, r'(?m)^\s*type\s+\w+\s*=', o + 1, e - 1)]
+    return hdr.strip() + ''.join('\n    ' + a.strip() for a in assoc)
+
+
+def emit_method(u, rel, impl_rx, name, key, prep=None, contracted=True, tags=None):
+    f = u.get_fn(rel, name, impl=impl_rx)
+    if prep:
+        prep(f)
+    u.emit_fn(f, key, wrap=(impl_header(u, rel, impl_rx, name), '}'), contracted=contracted, tags=tags)
+    return f
+
+
+def inspect_to_if(f, u):
+    """R-inspect: `X.inspect(|_| { S })` on an Option receiver, where the closure ignores its
+    argument -> `{ let r__ = X; if r__.is_some() { S } r__ }` (Option::inspect calls the closure
+    exactly when the value is Some and returns the value unchanged)."""
+    n = f.rewrite(r'(?s)([A-Za-z_][A-Za-z0-9_.]*\([^()]*\))\.inspect\(\|_\| \{(.*?)\}\)',
+                  r'{ let r__ = \1; if r__.is_some() {\2} r__ }')
+    u.count('R-inspect', n)
+    return n
